@@ -331,9 +331,12 @@ def correspondence(ctx):
     for st in streams:
         for case, tag in st:
             batch.append((case, tag))
-            if shown.get(tag.split('/')[0], 0) < 1 and (case['kind'] != 'path' or len(case['path']) > 6):
-                shown[tag.split('/')[0]] = 1
-                ctx.sample({'case': case, 'implementation': impl_of(case)}, 8)
+            key = tag.split('/')[0] + case['kind']
+            if shown.get(key, 0) < 1 and (case['kind'] != 'path' or len(case['path']) > 6):
+                r = impl_of(case)
+                if r != 'ValueError' or key.startswith(('malformed', 'mutated')):
+                    shown[key] = 1
+                    ctx.sample({'case': case, 'implementation': show(r) if case['kind'] in ('path', 'commas') else r}, 10)
             if len(batch) >= 200000:
                 run_batch(ctx, batch, out)
                 batch = []
